@@ -459,7 +459,7 @@ def validate(ctx, exe, cases, tag):
     t0 = time.time()
     lines, side = run_cases(ctx, exe, cases, tag)
     t1 = time.time()
-    accepted, rejects = vlib.tlc_trace(ctx, 'C03Trace', 'C03Trace.cfg', lines, min_per_shard=400, timeout=2400)
+    accepted, rejects = vlib.tlc_trace(ctx, 'C03Trace', 'C03Trace.cfg', lines, min_per_shard=3000, timeout=2400)
     if len(cases) > 100:
         vlib.log('RUN %d cases %.1fs, TV %.1fs' % (len(cases), t1 - t0, time.time() - t1))
     return lines, side, accepted, rejects
